@@ -94,7 +94,11 @@ URL_IN_HTML_BINARY_RE = re.compile(URL_IN_HTML_BINARY, re.I)
 QUERY_VALUE_IN_URL_TEMPLATE = r"(?:^|[?&])(%s)=([^&]+)"
 QUERY_VALUE_TEMPLATE = r"%s=([^&]+)"
 
-DOMAIN_TEMPLATE = r"^(?:https?:)?(?://)?(?:\S+(?::\S*)?@)?%s(?:[:/#]|\s*$)"
+# NOTE: %s should be DOMAIN_LABELS_PREFIX followed by the escaped domain(s)
+DOMAIN_LABELS_PREFIX = r"(?:[^\s./?#@:]+\.)*"
+DOMAIN_TEMPLATE = (
+    r"^(?:https?:)?(?://)?(?:[^\s/?#@]+@)?%s(?::\d*)?(?:[/?#]|\s*$)"
+)
 
 SCRIPT_TAG = r"<script\b[^<]*(?:(?!<\/script>)<[^<]*)*<\/script>"
 SCRIPT_TAG_BINARY = SCRIPT_TAG.encode()
